@@ -183,7 +183,7 @@ def echo_pass(pid, args, results, m, inconclusive):
     with open(fp, "w") as f:
         json.dump(recs, f)
     try:
-        p = subprocess.run([sys.executable, "-X", "faulthandler", "-m", "stixmon.echo", fp], capture_output=True, text=True, cwd=HOME, timeout=600)
+        p = subprocess.run([sys.executable, "-X", "faulthandler", "-m", "stixmon.echo", fp, pid, str(args.seed)], capture_output=True, text=True, cwd=HOME, timeout=600)
         answers = json.loads(p.stdout)
     except Exception as e:
         inconclusive.append("echo pass failed: %r" % (e,))
